@@ -13,6 +13,7 @@ import (
 	"bufio"
 	"bytes"
 	"crypto/ecdsa"
+	"crypto/ed25519"
 	"crypto/elliptic"
 	crand "crypto/rand"
 	"crypto/rsa"
@@ -276,6 +277,8 @@ func genOne(cs *genCase) *genOut {
 					if p.Key != nil {
 						if k, err := project.ParsePKCS8(p.Key); err == nil {
 							fx.KeyId = k.Pub.ID()
+						} else {
+							fx.KeyId = "opaque:" + project.SHA1Hex(p.Key) // a key the projection cannot read is still somebody's key
 						}
 					} else if p.Csr != nil {
 						if rq, err := project.ParseCsr(p.Csr); err == nil {
@@ -404,6 +407,8 @@ func certFacts(p project.PemFile, c *project.Cert, certs map[string]*project.Cer
 			if pk != nil {
 				f.KeyMatchesCert = k.Pub.ID() == pk.ID()
 			}
+		} else {
+			f.KeyId = "opaque:" + project.SHA1Hex(p.Key)
 		}
 	} else if p.Csr != nil {
 		if r, err := project.ParseCsr(p.Csr); err == nil {
@@ -602,6 +607,9 @@ func makeKey(name string) any {
 		return &rawECKey{c, d, x, y}
 	}
 	switch name {
+	case "ed25519": // a PKCS#8 key of an algorithm gopki does not support
+		_, k, _ := ed25519.GenerateKey(crand.Reader)
+		return k
 	case "P-224":
 		k, _ := ecdsa.GenerateKey(elliptic.P224(), crand.Reader)
 		return k
@@ -671,6 +679,9 @@ func marshalPKCS8Variant(key any, variant string) []byte {
 	var d, x, y *big.Int
 	var blen int
 	switch k := key.(type) {
+	case ed25519.PrivateKey:
+		b, _ := x509.MarshalPKCS8PrivateKey(k)
+		return b
 	case *rsa.PrivateKey:
 		b, _ := x509.MarshalPKCS8PrivateKey(k)
 		return b
